@@ -1,5 +1,6 @@
 import HabuVerif.Proofs.C15Cents
 import HabuVerif.Props.C03
+import HabuVerif.Proofs.DslCatWF
 import HabuVerif.Gen.Catalogue2021
 import HabuVerif.Gen.Catalogue2022
 import HabuVerif.Gen.Catalogue2023
@@ -123,7 +124,7 @@ payments / tax are cent-valued amounts in range, then the STORED overpayment and
 cent-valued, their difference is payments minus tax, both are non-negative and at most one is
 positive. -/
 theorem solved_return_balances {y : YearDecl} {c : ClassDecl} {l34 l35a l36 l37 : LineDecl}
-    (hS : BalanceShapes y c l34 l35a l36 l37) (hC : CatWF (mkCat y)) {σ : Sched String String}
+    (hS : BalanceShapes y c l34 l35a l36 l37) {σ : Sched String String}
     (hσ : SchedOK σ) {P : Option (Nat → String → List String → Option String)}
     {inp : List (String × String)} {forms : List String} {extra : List String} {fuel qfuel : Nat}
     {s : St String String String Val String}
@@ -136,6 +137,7 @@ theorem solved_return_balances {y : YearDecl} {c : ClassDecl} {l34 l35a l36 l37 
       Cent over co ∧ Cent owed cw ∧ co - cw = ca - cb ∧ 0 ≤ co ∧ 0 ≤ cw ∧ ¬ (0 < co ∧ 0 < cw) := by
   obtain ⟨over, owed, co, cw, e34, e37, r⟩ :=
     overpayment_and_amount_owed s.vf (s.inf (mkCat y)) s.ff hS a b ca cb hCa hCb hca hcb h33 h24
+  have hC : CatWF (mkCat y) := Dsl.mkCat_wf y
   have f34 := C03.solution_fixed_point hC hσ h "1040.34" v34 h34
   have f37 := C03.solution_fixed_point hC hσ h "1040.37" v37 h37
   rw [e34] at f34; rw [e37] at f37
